@@ -304,6 +304,8 @@ PROPS = {
                         henv={"quick": {"VERIF_MAPS": 2, "VERIF_SCALE": "quick"}, "thorough": {"VERIF_MAPS": 3, "VERIF_SCALE": "thorough"}}),
                    {"kind": "tlc_replay", "name": "ep_typed", "module": "MCTypedDocs.tla", "cfg": "MCTypedDocs.cfg", "stage": "ep_typed",
                     "workers": {"quick": 4, "thorough": 8}, "timeout": {"quick": 300, "thorough": 600}},
+                   {"kind": "tlc_replay", "name": "ep_codecs", "module": "MCCodecs.tla", "cfg": "MCCodecs.cfg", "stage": "ep_codecs",
+                    "workers": {"quick": 4, "thorough": 8}, "timeout": {"quick": 300, "thorough": 600}},
                    {"kind": "tlc_replay", "name": "ep_pgp", "module": "MCPgp.tla", "cfg": "MCPgp.cfg", "stage": "ep_pgp",
                     "consts": {"quick": {"MaxPayload": 2, "SeqLen": 4}, "thorough": {"MaxPayload": 3, "SeqLen": 5}},
                     "workers": {"quick": 8, "thorough": 16}, "timeout": {"quick": 300, "thorough": 3000}}],
